@@ -187,7 +187,7 @@ def warm_up():
     with Lock():
         d = prepare_scratch()
         try:
-            cmd = ["cargo", "kani", "--features", "multiqueue2_verif", "--only-codegen"]
+            cmd = ["cargo", "kani", "--features", "multiqueue2_verif", "-Z", "stubbing", "--only-codegen"]
             r = subprocess.run(cmd, cwd=d, env=_env(), capture_output=True, text=True)
             return r.returncode, (r.stdout + r.stderr)[-3000:]
         finally:
